@@ -17,7 +17,7 @@ ASSUMPTIONS = [
     "text keys: code points < 128 (the property claims FNV text = UTF-8 bytes only for ASCII)",
 ]
 BOUNDS = {
-    "quick": "key length 0..8 bytes, all seeds < 2^70; depth 1..3; decorators with depth 1..3",
+    "quick": "key length 0..8 bytes, all seeds < 2^70; depth 1..3 and 33, 64, 65, 130 (keys of 0..2 bytes); decorators with depth 1..3, digests symbolic, key handling on 'some key' and a fixed list of 9 text keys (accents composed/decomposed, compatibility characters, jamo, astral, NUL)",
     "thorough": "key length 0..16 bytes",
     "outside": "keys longer than the bound are covered only through the per-iteration argument stated in ASSUMPTIONS; digest internals",
 }
@@ -148,7 +148,7 @@ def depth(ctx, cfg):
     ctx.check(ctx.and_([ctx.fits(r, 64) for r in res]), "range64")
     ctx.check(ctx.and_([ctx.narrow(r, 64).eq(ref_fnv(ctx, bs, ctx.bvconst(i, 70), OFF64, P64, 64)) for i, r in enumerate(res)]),
               "depth-element-is-seeded-fnv")
-    for d2 in range(1, d):
+    for d2 in (range(1, d) if not cfg.get("big") else (1, d // 2, d - 1)):
         res2 = H.default_fnv_1a(key, d2)
         ctx.check(len(res2) == d2 and ctx.fork(ctx.and_([ctx.same_int(a, b) for a, b in zip(res, res2)])), "depth-prefix")
     ctx.assume(ctx.and_([b.ult(128) for b in bs]))
@@ -225,6 +225,11 @@ def _le64(ctx, dig):
     return ctx.sum([b * (1 << (8 * i)) for i, b in enumerate(env.byte_vals(dig)[:8])])
 
 
+# text keys on which the key handling of the decorators is exercised (it is concrete string code; the digests stay symbolic):
+# ASCII, empty, precomposed / decomposed accents, compatibility characters, conjoining jamo, an astral character, NUL, a ligature
+TEXT_KEYS = ["", "caf\u00e9", "cafe\u0301", "\u212b", "\u1100\u1161\u11a8", "\U0001f600", "a\x00b", "\ufb01", "\u00df\u0130"]
+
+
 def bytes_decorator(ctx, cfg):
     H = env.mod_hashes()
     if ctx.sym:
@@ -242,6 +247,9 @@ def bytes_decorator(ctx, cfg):
     ctx.check(ctx.and_([len(dg.log) == d] + [ctx.eq(r, _le64(ctx, g)) for r, g in zip(res, dg.log)]), "bytes-decorator-le64")
     rs = f("some key", d)
     ctx.check(len(rs) == d and ctx.fork(ctx.and_([ctx.eq(a, b) for a, b in zip(res, rs)])), "str==utf8-bytes")
+    for tk in TEXT_KEYS:
+        ra, rb = f(tk, d), f(tk.encode("utf-8"), d)
+        ctx.check(len(ra) == d and len(rb) == d and ctx.fork(ctx.and_([ctx.eq(a, b) for a, b in zip(ra, rb)])), "str==utf8-bytes")
     for d2 in range(1, d):
         r2 = f(b"some key", d2)
         ctx.check(len(r2) == d2 and ctx.fork(ctx.and_([ctx.eq(a, b) for a, b in zip(res, r2)])), "decorator-prefix")
@@ -278,6 +286,9 @@ def shipped_digest(ctx, cfg):
         ctx.check(res == want, "bytes-decorator-le64")
     rs = fn("some key", d)
     ctx.check(len(rs) == d and ctx.fork(ctx.and_([ctx.eq(a, b) for a, b in zip(res, rs)])), "md5-str==bytes")
+    for tk in TEXT_KEYS:
+        ra, rb = fn(tk, d), fn(tk.encode("utf-8"), d)
+        ctx.check(len(ra) == d and len(rb) == d and ctx.fork(ctx.and_([ctx.eq(a, b) for a, b in zip(ra, rb)])), "md5-str==bytes")
     for d2 in range(1, d):
         r2 = fn(b"some key", d2)
         ctx.check(len(r2) == d2 and ctx.fork(ctx.and_([ctx.eq(a, b) for a, b in zip(res, r2)])), "decorator-prefix")
@@ -324,6 +335,8 @@ def jobs(tier):
     for n in (0, 1, 2, 4) if tier == "quick" else (0, 1, 2, 4, 8):
         for d in (1, 2, 3):
             js.append({"h": "c18.depth", "cfg": {"len": n, "depth": d}, "opts": {"cost": 2 ** n * d}})
+    for n, d in ((0, 130), (1, 65), (1, 64), (2, 33)):      # 'exactly depth values' for depths far beyond what a structure asks for
+        js.append({"h": "c18.depth", "cfg": {"len": n, "depth": d, "big": True}, "opts": {"cost": 2 ** n * d, "no_witness": False}})
     for d in (1, 2, 3):
         for d0 in (1, 2, 3):
             for tf in (False, True):
